@@ -291,6 +291,29 @@ func c08Projects(ctx *Ctx, r *Rng) {
 			ctx.Violate(Violation{Kind: "wrong-output", Site: "INCLUDE", What: "moving complete directives into included files changes the catalog: " + firstDiff(b0.JSON, b1.JSON), Input: in, Signature: "cut-catalog"})
 		}
 	}
+	// a name with a "." or ".." component is refused even when the file it would reach exists (and so is a backslash)
+	for _, name := range []string{"./part.jst", "sub/./part.jst", "sub/../part.jst", "a/b/../../part.jst", "sub/../sub/inner.jst", "./sub/inner.jst", "sub//inner.jst/..", "sub" + "\x5c" + "inner.jst", "." + "\x5c" + "part.jst"} {
+		for _, from := range []string{"root", "nested"} {
+			files := map[string][]byte{"part.jst": []byte("TYPE @p\n{}\n"), "sub/inner.jst": []byte("TYPE @q\n{}\n"), "sub/part.jst": []byte("TYPE @r\n{}\n"),
+				"a/b/x.jst": []byte("TYPE @x\n{}\n")}
+			if from == "root" {
+				files["root.jst"] = []byte("JSIGHT 0.3\nINCLUDE " + name + "\n")
+			} else {
+				files["root.jst"] = []byte("JSIGHT 0.3\nINCLUDE mid.jst\n")
+				files["mid.jst"] = []byte("INCLUDE " + name + "\n")
+			}
+			p := Project{Files: files, Root: "root.jst"}
+			res := RunProject(p, false)
+			cases++
+			ctx.Cov.Hit("include name with a dot component or a backslash, target exists")
+			if res.Panic == "" && res.Err == nil {
+				in := projectInput(p)
+				in["op"] = "project"
+				ctx.Violate(Violation{Kind: "wrong-output", Site: "INCLUDE", What: fmt.Sprintf("INCLUDE %s (a name with a '.', '..' component or a backslash) is accepted", name), Input: in,
+					Observed: "accepted", Expected: "rejected", Signature: "include-dot-name-accepted"})
+			}
+		}
+	}
 	// faulty include targets must be rejected with a diagnostic
 	for _, p := range includeGraphs(r)[:13] {
 		res := RunProject(p, false)
